@@ -978,7 +978,7 @@ fn c19_roundtrip(autosql: Option<String>, rest: &str, want_fields: usize, what: 
             return Err(("autosql_not_verbatim".into(), format!("{}: stored {:?}", what, got)));
         }
         let fc = r.info().header.field_count as usize;
-        if fc != want_fields {
+        if want_fields != usize::MAX && fc != want_fields {
             return Err(("field_count_mismatch".into(), format!("{}: header field_count {} but the schema declares {}", what, fc, want_fields)));
         }
         Ok(())
@@ -1103,6 +1103,14 @@ impl Check for C19 {
             C19Case::Supplied { idx } => {
                 let (s, n) = supplied_schemas()[*idx].clone();
                 c19_roundtrip(Some(s), "x", n, &format!("supplied schema {}", idx), out);
+                if *idx == 0 {
+                    // supplied texts without any declaration (an empty or blank schema file): stored
+                    // and returned as they are (the field count of such a text is not judged)
+                    for blank in ["", "\n", " ", "\r\n", "\u{a0}", "\t\n\n"] {
+                        c19_roundtrip(Some(blank.to_string()), "x", usize::MAX, &format!("blank supplied schema {:?}", blank), out);
+                        out.count("blank_supplied_schemas", 1);
+                    }
+                }
                 if *idx == 0 {
                     c19_roundtrip(None, "", 3, "library default", out);
                 }
